@@ -98,7 +98,7 @@ pub fn gen(args: &Args, out: &mut dyn Write) {
             (rng.range(1, 9) as u32, rng.range(1, 7) as u32)
         };
         // every 16th texture is wide: widths around 2^8 and 2^16
-        let (w, h) = if i % 16 == 7 { (*rng.pick(&[256u32, 257, 512, 1024, 65536, 65537, 65535]), rng.range(1, 3) as u32) } else { (w, h) };
+        let (w, h) = if i % 16 == 7 { (*rng.pick(&[256u32, 257, 512, 1024, 65536, 65537, 65535, 131072, 262144]), *rng.pick(&[1u32, 2, 2, 3])) } else { (w, h) };
         let mut coord = |rng: &mut Rng, n: u32| -> f32 {
             match rng.below(12) {
                 // halves where the spacing of f32 is exactly one half (2^22 .. 2^23), both signs
